@@ -57,7 +57,8 @@ def analyze_source(repo, module, source, qual='<reference>'):
         nm = sub.name if seen[sub.name] == 1 else f'{sub.name}#{seen[sub.name]}'
         q2 = qual + '.<locals>.' + nm
         fi2 = FuncInfo(q2, sub, repo.module(module), parent=fi)
-        closure = {k: _object_of(v) for k, v in fa.env.items() if isinstance(k, str) and isinstance(v, tuple)}
+        closure = {k: _object_of(v) for k, v in getattr(fa, 'all_bindings', {}).items() if isinstance(v, tuple)}
+        closure.update({k: _object_of(v) for k, v in fa.env.items() if isinstance(k, str) and isinstance(v, tuple)})
         closure.update({k: v for k, v in fa.closures.get(q2, fa.env).items() if isinstance(k, str)})
         fa.nested_analyses[nm] = FuncAnalysis(repo, fi2, closure=closure, versioned=True)
     return fa
@@ -153,6 +154,7 @@ def _versioned(ctx, fi):
         closure = dict(pa.closure)
         # a closure sees its enclosing function's variables as they are when it runs: a name bound only
         # after the def is taken from the end of the enclosing function (the object, without versions)
+        closure.update({k: _object_of(v) for k, v in getattr(pa, 'all_bindings', {}).items() if isinstance(v, tuple)})
         closure.update({k: _object_of(v) for k, v in pa.env.items() if isinstance(k, str) and isinstance(v, tuple)})
         closure.update(pa.closures.get(fi.qualname, pa.env))
         closure = {k: v for k, v in closure.items() if isinstance(k, str)}
